@@ -10,6 +10,8 @@ PROGS = {
     # name: (main.asm text, needs -I lib?)
     "ok": ('@org $c000\n@meta "ID" "HRAM"\nhv:\n@endmeta\n@meta "ID" "RAM"\nrv:\n@endmeta\nstart:\n@db 1, 2, 3\n@dw start, later\nlater:\n@db "end"\n', False),
     "ok_inc": ('@db $11\n@include "lib.inc"\n@db $22\n', True),
+    # an image with a line break early and more than a kilobyte after it (what a line-buffered writer would cut)
+    "ok_big": ('@db 1, 10, 2\n@ds 1500, $41\n@db 10\n@ds 1100, $42\n@db 3\n', False),
     "parse_fail": ('@db 1, 2, 3\n@dw 4\n@db 300\n@db 5\n', False),
     "parse_fail_late": ('@org $c000\nq: @ds 200\n@db "some bytes"\n  @bogus 1\n', False),
     "link_fail_undef": ('@db 1, 2, 3\n@dw nosuch\n@db 4\n', False),
@@ -98,7 +100,7 @@ def run(ck):
             key = (c[0], c[1], c[2] and c[2][1], c[3] and c[3][1], c[4] and c[4][1], c[5] and c[5][1])
             cls = (c[1], bool(c[2]), c[2] and "nodir" in c[2][1], c[3] and c[3][1], c[4] and c[4][1], c[5] and c[5][1])
             clean = not any(x and ("nodir" in x[1] or "nosuch" in x[1]) for x in (c[2], c[3], c[4], c[5]))
-            if cls not in seen or rng.random() < 0.12 or (clean and c[1] in ("ok", "ok_inc") and rng.random() < 0.7):
+            if cls not in seen or rng.random() < 0.12 or (clean and c[1] in ("ok", "ok_inc", "ok_big") and rng.random() < 0.7):
                 seen.add(cls); keep.append(c)
         grid = keep
     runs = []
@@ -140,6 +142,9 @@ def run(ck):
             open(os.path.join(d, "main.asm"), "w").write(PROGS[prog][0])
             open(os.path.join(d, "lib", "lib.inc"), "w").write(LIB)
             argv, before, after = build_argv(arch, prog, out, dbg, exp, inc, pl)
+            if out and "nodir" not in out[1]:
+                # an older, longer output file is already there: it must be replaced, not overwritten in place
+                open(os.path.join(d, out[1]), "wb").write(b"\xEE" * 4000)
             try:
                 p = subprocess.run([az] + argv, cwd=d, stdout=subprocess.PIPE, stderr=subprocess.PIPE, timeout=60)
                 rc, so, se = p.returncode, p.stdout, p.stderr
@@ -179,6 +184,8 @@ def run(ck):
         mlines.append("cli\t%s\t%s\t%s\t%s\t%s\t%s\t%s" % (before, arch, after, oopen, paths_ok, image[key], ",".join(exports)))
     preds = run_cases(model, mlines)
 
+    KNOWN_BYTES = {"ok_big": bytes([1, 10, 2]) + b"A" * 1500 + b"\n" + b"B" * 1100 + bytes([3]),
+                   "ok_inc": bytes([0x11, 0x99, 0x22]), "unsolved_symbol": bytes([7, 8])}
     nviol = 0
     ref_stdout = {}
     for run, r, pred in zip(runs, results, preds):
@@ -191,7 +198,7 @@ def run(ck):
         withlib = bool(inc and inc[1] == "lib")
         nopts = sum(1 for x in (out, dbg, exp, inc) if x)
         # expectation by construction
-        img_ok = prog in ("ok", "ok_inc", "unsolved_symbol") and (not PROGS[prog][1] or withlib)
+        img_ok = prog in ("ok", "ok_inc", "ok_big", "unsolved_symbol") and (not PROGS[prog][1] or withlib)
         all_ok = img_ok and not (out and "nodir" in out[1]) and not (inc and inc[1] == "nosuchdir") \
             and not (dbg and ("nodir" in dbg[1] or prog == "unsolved_symbol")) \
             and not (exp and (prog == "unsolved_symbol" or ("nodir" in exp[1] and (arch == "sm83" or prog == "ok"))))
@@ -216,10 +223,10 @@ def run(ck):
             elif dbgfiles:
                 bad = "debug files %s created although assembling/linking failed" % dbgfiles
         if not bad and img_ok and not (inc and inc[1] == "nosuchdir") and not (out and "nodir" in out[1]):
-            ref = ref_stdout.get((arch, prog, withlib))
+            ref = KNOWN_BYTES.get(prog, ref_stdout.get((arch, prog, withlib)))
             got = outfile if out else so
             if ref is not None and got != ref:
-                bad = "%s holds %s, the plain run writes %s to standard output" % ("-o file" if out else "standard output", (got or b"").hex()[:60], ref.hex()[:60])
+                bad = "%s holds %d bytes %s.., the image is %d bytes %s.." % ("-o file" if out else "standard output", len(got or b""), (got or b"").hex()[:40], len(ref), ref.hex()[:40])
             elif out and so:
                 bad = "bytes on standard output although -o was given"
         if not bad and rc == 0:
